@@ -832,12 +832,11 @@ def build_items(tier, seed, parts):
             f, d, _ = G[gname]
             # quick tier: no degenerate (dmin == dmax) boxes in the pair alphabet (they are in the single-box space)
             A = box_alphabet(gname, coarse_vals(f), coarse_vals(d), None if thorough else (lambda x: x[0] is None or x[0] != x[1]))
-            pairs = [[a, b] for a, b in itertools.combinations(A, 2)]
+            # unordered pairs; every other one is passed in reverse order (the order only decides the part index)
+            pairs = [[a, b] if n % 2 == 0 else [b, a] for n, (a, b) in enumerate(itertools.combinations(A, 2))]
             pairs.sort(key=lambda s: sum(nexplicit(b) for b in s))
             for k, ch in enumerate(chunks(pairs, 400)):
                 items.append(dict(op="bbox", name="pair", gname=gname, grid=G[gname], seed=seed, sets=ch, sample=(k == 3), batch=(k % 2 == 0)))
-            # reversed order for the sets that must succeed is covered by symmetric enumeration of the alphabet (a,b) and (b,a)
-            # appear as different alphabet elements only when boxes differ; the order only permutes the output parts.
         # quarter-point family: positive-area overlap that holds no bin (either outcome allowed), touching between nodes
         f, d, _ = G["g44"]
         s = np.sort(f)
